@@ -437,6 +437,12 @@ func NodeTriggersFuncErrRet(rootNode *RootAssertionNode, nonceGenerator *guard.N
 		return nil, false
 	}
 
+	// A conversion to a function type, e.g., `h := Loader(g)` with `type Loader = func() (*T, error)`, is not a
+	// call of a function of that type.
+	if tv, ok := rootNode.Pass().TypesInfo.Types[callExpr.Fun]; ok && tv.IsType() {
+		return nil, false
+	}
+
 	// Get signature of the function call (normal and anonymous both)
 	sig := typeshelper.GetFuncSignature(rootNode.Pass().TypesInfo.TypeOf(callExpr.Fun))
 
